@@ -31,6 +31,9 @@ func checkC18(p *Prog, r *Report) {
 	ruleC18FloatDiv(p, a, r)
 	ruleC18FloatToInt(p, a, r)
 	ruleC18UintToInt(p, a, r)
+	ruleC18Wrap(p, a, r)
+	ruleC18ExactString(p, a, r)
+	ruleC18PtrFormat(p, a, r)
 	ruleC18ArgByValue(p, a, r)
 }
 
